@@ -787,6 +787,25 @@ class Call(object):
         if self.inline:
             for s in self.inline:
                 self.stmts.append((self.inline_self, s, "inline"))
+        # legality: unique_vec over lists that currently differ in size is rejected by the library (documented error),
+        # wherever the statement sits
+        def scan(sp, st):
+            for x in st:
+                if x[0] == "uvec":
+                    sizes = set(len(get_at(self.root, tuple(sp) + tuple(p))) for p in x[1])
+                    if len(sizes) > 1:
+                        raise Corner("unique_vec over lists of different size")
+                elif x[0] == "if":
+                    for c_, b_ in x[1]:
+                        scan(sp, b_)
+                    if x[2] is not None:
+                        scan(sp, x[2])
+                elif x[0] in ("imp",):
+                    scan(sp, x[2])
+                elif x[0] == "fe":
+                    scan(sp, x[3])
+        for sp, s, org in self.stmts:
+            scan(sp, [s])
 
     def bits(self):
         return sum(leaf_bits(self.prog, t) for _, t in self.rand_leaves)
